@@ -276,6 +276,15 @@ func (w *World) acquire(cs *connState) sut.Driver {
 		}()
 		if pk, ok := d.(interface{ Poke(int) }); ok && c.Poke != 0 {
 			pk.Poke(c.Poke)
+			if w.st != nil {
+				w.st.fault("user-sethdr-before-reset")
+			}
+		}
+		if w.st != nil && c.Cfg.Frag {
+			w.st.fault("header-block-use-of-message-object")
+		}
+		if w.st != nil && w.sc.SharePool && c.ResetBy == sut.ByInit {
+			w.st.fault("init-from-shared-array-pool")
 		}
 		if c.ResetBy == sut.ByInit {
 			d.Reinit(c.Cfg)
@@ -349,6 +358,17 @@ func (w *World) pump(cs *connState) {
 			buf = nb
 		}
 		eofCall := cs.eof || (cs.c.EarlyEOF > 0 && cs.calls+1 == cs.c.EarlyEOF)
+		if w.st != nil {
+			if eofCall && !cs.eof {
+				w.st.fault("false-end-of-input")
+			}
+			if cs.c.Cfg.LateFrom > 0 && cs.calls+1 == cs.c.Cfg.LateFrom+1 {
+				w.st.fault("flags-changed-mid-message")
+			}
+			if cs.calls == 0 && cs.c.Cfg.HBMask != 0 {
+				w.st.fault("caller-phbodies-with-nil-getters")
+			}
+		}
 		prevCont := cs.cont
 		ret, err, pan := guarded(cs.drv, buf, cs.cont, eofCall)
 		cs.calls++
